@@ -83,7 +83,7 @@ func genCase(r *h.Run, idx int) caseT {
 	if c.Family == "core" {
 		c.MaxWB = rng.Intn(3) == 0
 		if c.Net != "udp" {
-			c.AddStop = []string{"", "race", "in-onopen"}[rng.Intn(3)]
+			c.AddStop = []string{"", "race", "in-onopen", "burst"}[rng.Intn(4)]
 			c.CloseAdd = []string{"", "", "closed-first", "close-race"}[rng.Intn(4)]
 		}
 	} else {
@@ -376,7 +376,37 @@ func runCase(r *h.Run, c caseT) {
 		stopFn = func() {
 			var addErr error
 			addDone := make(chan struct{})
-			if c.AddStop != "" {
+			var burst sync.WaitGroup
+			if c.AddStop == "burst" {
+				// several goroutines hand connections to the engine while Stop begins: each is refused or
+				// taken and closed, and counting them must never disturb Stop's own wait
+				for k := 0; k < 6; k++ {
+					sp, err := syscall.Socketpair(syscall.AF_UNIX, syscall.SOCK_STREAM, 0)
+					if err != nil {
+						continue
+					}
+					f0, f1 := os.NewFile(uintptr(sp[0]), "b0"), os.NewFile(uintptr(sp[1]), "b1")
+					mine, e0 := net.FileConn(f0)
+					other, e1 := net.FileConn(f1)
+					f0.Close()
+					f1.Close()
+					if e0 != nil || e1 != nil {
+						continue
+					}
+					addPeer(other)
+					d := rng.Intn(300)
+					burst.Add(1)
+					go func() {
+						defer burst.Done()
+						time.Sleep(time.Duration(d) * time.Microsecond)
+						if _, err := g.AddConn(mine); err != nil {
+							mine.Close()
+						}
+					}()
+				}
+				time.Sleep(time.Duration(rng.Intn(300)) * time.Microsecond)
+				close(addDone)
+			} else if c.AddStop != "" {
 				// a connection handed to AddConn around the moment Stop starts: it is either refused
 				// (and closed) or taken and then closed by Stop - never left behind, and Stop returns
 				sp, err := syscall.Socketpair(syscall.AF_UNIX, syscall.SOCK_STREAM, 0)
@@ -434,7 +464,8 @@ func runCase(r *h.Run, c caseT) {
 				return
 			}
 			r.Seen("add_during_stop", fmt.Sprintf("%s/refused=%v", c.AddStop, addErr != nil))
-			if c.AddStop == "race" {
+			burst.Wait()
+			if c.AddStop == "race" || c.AddStop == "burst" {
 				// the racing AddConn may have started after Stop had returned: it is refused and closed
 				// by AddConn itself, the counts are compared once it is back
 				// (the notification itself is delivered by the engine's asynchronous queue: wait for
